@@ -20,6 +20,11 @@ import Verif.Model.Constraints
              (the former causes d8:<kind> and rootdrop are repaired: 4a0d6e3, 94a532b; should
              the code allow such a name again the model says plain `eng=deny vfy=nc`)
 
+  Stage `paths` (source-derived facts, against the tables `issuePaths`, `frontEnds`, `certCreators`):
+      st=paths fn=<function>|*|frontends|creators
+    output: the calls of interest of that function in source order (V! G! C R, `?` = unchecked),
+            or the comma-separated list
+
   <level> = pdns;xdns;pip;xip;pem;xem;puri;xuri      lists: items joined by ',' or '-' if empty
   <cert>  = subject~issuer~ski~aki~<level>[~0|1]   (roots: last.CheckSignatureFrom(root) == nil)
   string = x<hex>; IP net = x<ip hex>/x<mask hex>; IP = x<hex>; URI = x<host>:x<split>|!:0|1
@@ -121,6 +126,24 @@ def evalChain (kv : List (String × String)) : Option String := do
     else pure s!"eng={classS coded} vfy=nc"
   | v => pure s!"eng={classS coded} vfy={goS v}"
 
+def stepS : Step → String
+  | .validate c => if c then "V!" else "V?"
+  | .gate c => if c then "G!" else "G?"
+  | .casCreate => "C"
+  | .casRenew => "R"
+
+def joinS (l : List String) : String := if l.isEmpty then "-" else ",".intercalate l
+
+/-- stage `paths`: the table entry for one source fact -/
+def evalPaths (fn : String) : String :=
+  match fn with
+  | "*" => ",".intercalate (issuePaths.map (·.1))
+  | "frontends" => joinS frontEnds
+  | "creators" => joinS certCreators
+  | f => match issuePaths.find? (·.1 = f) with
+    | some p => " ".intercalate (p.2.map stepS)
+    | none => "not-in-table"
+
 def eval (line : String) : Option String := do
   let kv := (fields line).filterMap fun f =>
     match f.splitOn "=" with
@@ -132,6 +155,7 @@ def eval (line : String) : Option String := do
     let n ← names? kv
     pure (verdictS (engineUnderTest chain n))
   | "chain" => evalChain kv
+  | "paths" => (lookup kv "fn").map evalPaths
   | _ => none
 
 end C05
